@@ -533,7 +533,14 @@ impl WriteBackend for OpenDALBackend {
     ) -> RusticResult<()> {
         trace!("writing tpe: {tpe:?}, id: {id}");
         let filename = self.path(tpe, id);
-        _ = self.operator.write(&filename, content.into_vec()).map_err(|err| {
+        // empty chunks must not reach opendal: a `Buffer` with an empty chunk in front of a
+        // non-empty one makes its writer spin forever
+        let content: Vec<_> = content
+            .into_vec()
+            .into_iter()
+            .filter(|chunk| !chunk.is_empty())
+            .collect();
+        _ = self.operator.write(&filename, content).map_err(|err| {
             RusticError::with_source(
                 ErrorKind::Backend,
                 "Writing file `{path}` failed in the backend. Please check if the given path is correct.",
